@@ -206,6 +206,20 @@ def directed(pid, thorough):
                     add("burst", proto, steps, sig_on_make=k, make_gated=gated)
                 # the first request is already on the wire when the burst is accepted
                 add("burst", proto, [C(1), C(2, True), C(3)] + req(2), sig_on_make=k + 1)
+        # the signal while a connection is parked in protocol detection with a partial HTTP/2 preface buffered
+        # (a slow HTTP/2 client): it is open and idle, it must be told and close
+        for tls in (False, True):
+            for n in (1, 5, 14, 18, 23):
+                add("prefixsig", "auto", [C(1), {"a": "Prefix", "c": 1, "k": n}, {"a": "Signal"}, {"a": "Probe"}], tls=tls)
+            add("prefixsig", "auto", [C(1), C(2)] + req(1) + [{"a": "Prefix", "c": 2, "k": 9, "ns": True}, {"a": "Signal"},
+                                                            {"a": "Gate", "c": 1, "k": 1, "ok": True}, {"a": "Chunk", "c": 1, "k": 1},
+                                                            {"a": "Chunk", "c": 1, "k": 1}], tls=tls)
+        # the signal while a peer of a TLS listener has not started / finished its handshake (silent peer)
+        for proto in ("h1", "auto"):
+            add("tlsstall", proto, [C(1, mode="raw"), {"a": "Signal"}, {"a": "Probe"}], tls=True)
+            add("tlsstall", proto, [C(1, True, mode="raw"), {"a": "Signal"}], tls=True)
+            add("tlsstall", proto, [C(1), C(2, mode="raw")] + req(1) + [{"a": "Signal"}, {"a": "Gate", "c": 1, "k": 1, "ok": True},
+                                                                       {"a": "Chunk", "c": 1, "k": 1}, {"a": "Chunk", "c": 1, "k": 1}], tls=True)
     else:
         for proto in ("h1", "auto", "h2"):
             for tls in (False, True) if proto != "h2" else (False,):
@@ -214,6 +228,11 @@ def directed(pid, thorough):
                                        {"a": "Probe"}] + req(1) + [{"a": "Gate", "c": 1, "k": 1, "ok": True}, {"a": "Chunk", "c": 1, "k": 1},
                                                                     {"a": "Chunk", "c": 1, "k": 1}, {"a": "Probe"}], acc="tcp", tls=tls)
                 add("tcprst", proto, [C(1, True), {"a": "ResetConnect", "ns": True}, C(2), {"a": "Probe"}], acc="tcp", tls=tls)
+        # unix-peer-nonutf8-path: an otherwise well-behaved client whose own end is bound to a non-UTF-8 pathname
+        serve = lambda i: req(i) + [{"a": "Gate", "c": i, "k": 1, "ok": True}, {"a": "Chunk", "c": i, "k": 1}, {"a": "Chunk", "c": i, "k": 1}]
+        for proto in ("h1", "auto", "h2"):
+            add("oddpeer", proto, [C(1, p="odd"), {"a": "Probe"}] + serve(1) + [{"a": "Probe"}], acc="unix")
+        add("oddpeer", "h1", [C(1), C(2, True, p="odd")] + serve(1) + [{"a": "Probe"}] + serve(2), acc="unix")
         for tls in (False, True):
             for n in (1, 5, 14, 18, 23):
                 for close in ("Disconnect", "Trunc"):
@@ -284,7 +303,12 @@ def key_of(inv, rec, prev=None):
         where = "stalled-after-" + "+".join(kinds) if kinds else "stalled"
     if inv in ("C09_SrvStable", "C09_EndsOnlyOnAllowed") and rec.get("srv") != "running":
         # the serving future ended without an allowed cause: the class is (result, was a connect given up)
-        where = "cancelled-connect" if (rec.get("cancelled", 0) > 0 and rec.get("srv") == "erraccept") else "no-allowed-cause"
+        if rec.get("oddPeers", 0) > 0 and rec.get("srv") == "erraccept":
+            where = "unix-peer-nonutf8-path"
+        elif rec.get("cancelled", 0) > 0 and rec.get("srv") == "erraccept":
+            where = "cancelled-connect"
+        else:
+            where = "no-allowed-cause"
     return f"{inv}@{rec.get('srv')}/{where}"
 
 
@@ -476,6 +500,9 @@ def run(pid, tier, seed, t0):
         # a few real-socket runs in the quick tier as well (eventual outcomes only, generous real time-outs)
         harness("walk_tcp", ["--walk", "--profile", prof, "--seed", seed + 2, "--num", 8, "--len", 12, "--acc", "tcp",
                              "--protos", "h1,auto,h2"], timeout=900)
+        if pid == "C09":
+            harness("walk_unix", ["--walk", "--profile", prof, "--seed", seed + 3, "--num", 4, "--len", 12, "--acc", "unix",
+                                  "--protos", "h1,auto,h2"], timeout=900)
     if thorough:
         for acc in ("tcp", "unix"):
             harness(f"walk_{acc}", ["--walk", "--profile", prof, "--seed", seed + 2, "--num", 90, "--len", 18, "--acc", acc,
